@@ -211,6 +211,9 @@ class SSHKnownHosts:
             host = f'[{host}]:{port}' if host else ''
             addr = f'[{addr}]:{port}' if addr else ''
 
+            # Address patterns without a port only apply to the default port
+            ip = None
+
         matches = []
         matches += self._exact_entries.get(host, [])
         matches += self._exact_entries.get(addr, [])
